@@ -205,7 +205,12 @@ func (c c15Case) run(viol func(sig, detail string), r *core.Run) {
 	s := store.New()
 	ls := lsFor(s)
 	for _, how := range []string{"Reify", "unixfs-preload"} {
-		n, err := openVia(how, ls, node)
+		var n datamodel.Node
+		var err error
+		if p, pv := core.Guard(func() { n, err = openVia(how, ls, node) }); p {
+			viol("panic reify "+c.View, fmt.Sprintf("%s via %s: %v", c, how, pv))
+			return
+		}
 		if err != nil {
 			viol("reify-error "+c.View, fmt.Sprintf("%s: %v", c, err))
 			return
@@ -214,7 +219,7 @@ func (c c15Case) run(viol func(sig, detail string), r *core.Run) {
 			r.Transitions.Add(1)
 		}
 		if p, pv := core.Guard(func() {
-			mapContract(n, []string{"", "a", "b", "c"}, func(sig, detail string) {
+			mapContract(n, []string{"", "a", "b", "c", "0", "1", "2", "3", "-1", "01"}, func(sig, detail string) {
 				viol(sig+" "+c.View, fmt.Sprintf("%s via %s (%T): %s", c, how, n, detail))
 			})
 		}); p {
@@ -228,7 +233,8 @@ func (c c15Case) run(viol func(sig, detail string), r *core.Run) {
 
 func runC15(r *core.Run) {
 	r.Rule("bounded-exhaustive: every link list of length <= 4 (quick) / 5 (thorough) over names {absent,\"\",a,b} (every order, duplicates included) viewed as plain directory, data-less node, symlink, metadata and undecodable-data node, both built directly and decoded from the encoded block; every sharded directory of the universe subsets (this builder and the reference writer); oracle = the map-node contract (iteration count == Length, over-read error, yielded keys resolvable to a yielded link, unyielded keys absent, 4 lookup entry points and both iterators agree)")
-	alphabet := []string{"\x00", "", "a", "b"}
+	// "1": a name that reads as a number (and as a position in the link list)
+	alphabet := []string{"\x00", "", "a", "1"}
 	maxLen := 4
 	if !r.Quick() {
 		maxLen = 5
